@@ -329,6 +329,21 @@ def run(ctx):
         else:
             r.bad("should_skip_entry", "anchor-missing: should_skip_entry shape", fn=sse)
 
+    with ctx.rule("C04.ANYPARENT", "matched_path_or_any_parents never asks whether the root itself (the empty path) is an ignored "
+                  "directory", floor=1, kind="GUARD") as r:
+        f = facts.fn(GI + "::matched_path_or_any_parents")
+        eb = ExprBuilder(f)
+        ms = [c for c in f.calls_to(GI + "::matched_stripped") if W.const_val(eb.operand(c.args[2])) == 1]
+        emp = cond_switches(f, lambda e: e.k == "call" and e[1].endswith("::is_empty") and
+                            any(is_call(x, "std::path::Path::parent") for x in walk(e)), eb)
+        if not ms:
+            r.bad("root", "anchor-missing: the walk up the parents in matched_path_or_any_parents", fn=f)
+        elif emp and not guarded(f, [c.bb for c in ms], emp, False):
+            r.ok("root", "the parent of a single component (\"\") ends the walk before it is matched", fn=f)
+        else:
+            r.bad("root", "matched_path_or_any_parents matches the empty path — the parent of a top-level name, i.e. the directory the "
+                  "ignore file lives in — as a directory: with a rule like `*/` (or `**/`) every top-level file comes back as "
+                  "ignored, although matched() and git say it is not", fn=f, loc=ms[0].loc, construct="any-parents")
     with ctx.rule("C04.STRIP", "paths are made relative to the ignore file's directory before matching", floor=2, kind="FLOW") as r:
         f = facts.fn(GI + "::matched")
         eb = ExprBuilder(f)
